@@ -153,6 +153,8 @@ def run(spec):
         return res
     g0 = c09.globals_digest()
     changed = False
+    n_run = len(p.cost_list)
+    absence_free = not any(0 <= a < n_run for a in spec["cfg"].get("absence", []))
     for oi, op in enumerate(spec.get("ops", [])):
         before = D.log_lengths(ix)
         n0 = common_len(before)
@@ -179,7 +181,7 @@ def run(spec):
                 res.count("insert_duplicate_in_list")
             if any(s in abs0 for s in steps):
                 res.count("insert_already_present")
-            dumpb = D.dump(p, ix, live=False) if not abs0 else None
+            dumpb = D.dump(p, ix, live=False) if absence_free else None
             o = D.call(lambda: p.insert_absence_time_list(list(steps)))
             what = "insert_absence_time_list(%s) on a %d-step result" % (steps, n0)
             tagop = "insert"
@@ -219,6 +221,10 @@ def run(spec):
             res.add("time", "C18.%s_time%s" % (tagop, ("." + "+".join(flags)) if flags else ""),
                     "%s: all logs now have %d entries but project.time=%d (before: %d entries, time %d)" % (what, n1, p.time, n0, time0), None)
             break
+        if tagop == "remove":
+            absence_free = True
+        else:
+            absence_free = absence_free and not any(True for s_ in new if 0 <= s_)  # becomes true again after the round-trip remove below
         if tagop == "insert":
             # which indices are the inserted ones
             marks = [False] * n0
@@ -252,7 +258,10 @@ def run(spec):
                 if not o2.ok:
                     res.add("no_error", "C18.remove_raises.%s@%s" % (o2.exc_type, o2.where), "remove after %s raised %s(%s)" % (what, o2.exc_type, o2.msg), None)
                     break
+                absence_free = True
                 dumpa = D.dump(p, ix, live=False)
+                dumpa.pop("absence_time_list", None)
+                dumpb.pop("absence_time_list", None)
                 diff = D.first_diff(dumpb, dumpa)
                 if diff is not None:
                     flags = []
